@@ -93,11 +93,11 @@ Definition rp_ok (umagic schema : Z) (files : list (Z * bytes)) (expected : list
              | MTrunc k => truncate_files k files
              | MFlip fi i bit => flip_files (Z.to_nat fi) (Z.to_nat i) bit (map snd files)
              end in
-  (* faithful model first; every combination of the repairs (levRotateTo.Crc32 check, chunk chain check, incomplete
-     header skipped) is accepted too (dual model); evaluated lazily *)
-  first_ok (fun v => let '(a, b, c) := v in rres_ok expected (replay3 a b c umagic schema img from meta) o)
-           [(false, false, false); (true, true, true); (true, false, false); (true, true, false); (true, false, true);
-            (false, false, true)].
+  (* faithful model first; the repairs (levRotateTo.Crc32 check, chunk chain check, chain check also after a chunk without
+     levRotateTo, incomplete header skipped) is accepted too (dual model); evaluated lazily *)
+  first_ok (fun v => let '(a, b, e, c) := v in rres_ok expected (replay4 a b e c umagic schema img from meta) o)
+           [(true, true, false, false); (false, false, false, false); (true, true, true, false); (true, true, false, true);
+            (true, true, true, true); (true, false, false, false); (true, false, false, true); (false, false, false, true)].
 
 Fixpoint files_eqb (a : list (Z * bytes)) (b : list (Z * list seg)) : bool :=
   match a, b with
